@@ -1,3 +1,4 @@
 import JobShopProofs.HistoryWorld
 import JobShopProofs.Unsubscribed
+import JobShopProofs.NotifyRound
 /-! Everything the C10 check audits, in one module. -/
